@@ -37,7 +37,7 @@ var defaultCls = map[string]map[string]int{
 	"confirm":       {"current": 40, "used": 8, "superseded": 8, "otheracct": 8, "bitflip": 8, "trunc": 4, "extend": 4, "trailing": 6, "stored": 6, "empty": 3, "garbage": 5},
 	"oauth_cb":      {"own": 50, "empty": 6, "otherbrowser": 12, "spent": 12, "prefix": 5, "extended": 5, "caseflip": 5, "garbage": 5},
 	"oauth_cb2":     {"validcode": 70, "badcode": 10, "othercode": 8, "error": 12},
-	"totp_validate": {"ok": 40, "wrong": 12, "othertotp": 10, "stale": 8, "empty": 5, "recovery": 10, "recovery_spent": 5, "recovery_other": 5, "recovery_hash": 5},
+	"totp_validate": {"ok": 40, "wrong": 12, "othertotp": 10, "stale": 8, "empty": 5, "emptysecret": 3, "recovery": 10, "recovery_spent": 5, "recovery_other": 5, "recovery_hash": 5},
 	"totp_confirm":  {"ok": 60, "wrong": 20, "othertotp": 10, "empty": 10},
 	"totp_remove":   {"ok": 40, "wrong": 15, "othertotp": 10, "stale": 5, "empty": 5, "recovery": 10, "recovery_spent": 5, "recovery_other": 5, "recovery_hash": 5},
 	"sms_validate":  {"ok": 35, "wrong": 10, "lastsms": 12, "ownsms": 10, "empty": 10, "sessionsecret": 3, "recovery": 8, "recovery_spent": 4, "recovery_other": 4, "recovery_hash": 4},
@@ -46,7 +46,7 @@ var defaultCls = map[string]map[string]int{
 	"sms_setup":     {"own": 50, "other": 20, "fresh": 20, "empty": 10},
 	"ev_end":        {"current": 50, "othersession": 12, "old": 10, "empty": 10, "absent": 8, "garbage": 10},
 	"steal":         {"live": 40, "spent": 25, "revoked": 15, "garbage": 10, "none": 10},
-	"newpw":         {"fresh": 55, "weak": 10, "same": 8, "long73": 5, "long72": 5, "long71": 4, "nonascii": 5, "nul": 4, "one": 4},
+	"newpw":         {"fresh": 55, "weak": 10, "same": 8, "long73": 5, "long72": 5, "long71": 4, "nonascii": 5, "nul": 4, "one": 4, "hashshaped": 5},
 }
 
 func (p *Profile) class(r *rand.Rand, kind string) string {
@@ -283,6 +283,28 @@ func (p *Profile) Make(s *Sim, kind string) *Action {
 	case "steal":
 		a.Cls = p.class(r, "steal")
 	case "faultnext":
+		if r.Intn(4) == 0 {
+			// instead of a backend fault: the application's own After-event listener answers the next
+			// request itself (or fails in it); queue a request that reaches an After event
+			a.Kind = "hooknext"
+			a.Opt["mode"] = pick(r, "handled", "handled", "error")
+			kinds := []string{"login", "login", "otp_login", "totp_validate", "sms_validate", "logout", "register", "totp_confirm", "sms_confirm", "recover_end", "oauth_cb"}
+			if k := kinds[r.Intn(len(kinds))]; s.Enabled(k) {
+				f := p.Make(s, k)
+				f.B = a.B
+				switch k {
+				case "recover_end":
+					f.Cls, f.Cls2 = "current", "fresh"
+				case "oauth_cb":
+					f.Cls, f.Cls2 = "own", "validcode"
+				case "register":
+				default:
+					f.Cls = "ok"
+				}
+				s.Pending = append(s.Pending, f)
+			}
+			return a
+		}
 		// one backend operation fails in the next request; queue a request in which that matters
 		op := pick(r, "Save", "Save", "Load", "UseRememberToken", "AddRememberToken", "sms", "render", "hash", "Create", "SaveOAuth2", "DelRememberTokens", "LoadByRecoverSelector")
 		a.Opt["op"] = op
